@@ -448,6 +448,22 @@ func checkC04(c *km.Ctx) {
 
 	// ---------- R-C04-4
 	checkExpiry(c, s, consumers)
+
+	// a signed storage record is honoured only for the user it was signed for: C07's obligation on GetSigned
+	// (record verified ∧ subject == requested user on every path that returns a record), borrowed here because it
+	// is the purpose-binding of that token kind
+	if r.Remap == nil {
+		r.Remap = func(rule, fn, construct string) (string, bool) {
+			if rule == "R-C07-3" && construct == "signed record returned" {
+				return "R-C04-2", true
+			}
+			return "", false
+		}
+		saveExplain, saveND, saveAs := r.Explain, r.NotDecided, r.Assume
+		checkC07(c)
+		r.Explain, r.NotDecided, r.Assume = saveExplain, saveND, saveAs
+		r.Remap = nil
+	}
 }
 
 type honourPoint struct {
